@@ -301,7 +301,21 @@ def context(ctx, U):
         del x, y, x2, y2
 
 
+def deductive(ctx):
+    """engine D: memo logic of hash_single (hit returns the memoised hash; the recursion placeholder is
+    stored before serialising and replaced by the final hash, which is returned)"""
+    from contracts import hash_single as HS
+    from pyvc.verify import verify, summarize
+
+    summarize(ctx, verify(ctx, HS.contract()))
+
+
 def run(ctx):
+    deductive(ctx)
+    _run_bounded(ctx)
+
+
+def _run_bounded(ctx):
     ctx.level = "other"
     ctx.explanation = (
         "hash_function of the working tree is executed on every value of a bounded grammar (scalars, short strings/bytes over an alphabet containing the "
